@@ -114,6 +114,10 @@ type LMap struct {
 	mt  *types.Map
 }
 type LTemp struct{ val *Term } // rvalue (not assignable)
+type LCond struct {
+	cond *Term
+	a, b Loc
+}
 
 func (f *Frame) fieldHeapName(st types.Type, fieldName string) string {
 	return "F!" + shortTypeName(types.Unalias(st)) + "!" + fieldName
@@ -126,6 +130,8 @@ func (f *Frame) load(st *State, l Loc) *Term {
 	switch l := l.(type) {
 	case LTemp:
 		return l.val
+	case LCond:
+		return Ite(l.cond, f.load(st, l.a), f.load(st, l.b))
 	case LVar:
 		v, ok := st.vars[l.obj]
 		if !ok {
@@ -193,7 +199,102 @@ func (f *Frame) mapHeap(mt *types.Map, part string) string {
 	return "M!" + shortTypeName(mt.Key()) + "!" + shortTypeName(mt.Elem()) + "!" + part
 }
 
-func (f *Frame) ptrLoc(ref *Term, elem types.Type) Loc { return LPtr{ref: ref, elem: elem} }
+func (f *Frame) ptrLoc(ref *Term, elem types.Type) Loc {
+	if loc, ok := f.c.interiorLoc(ref); ok {
+		return loc
+	}
+	if f.c.interior != nil && f.c.mentionsInterior(ref) {
+		t := f.c.unfold(ref)
+		if t.Op == "ite" {
+			return LCond{cond: t.Args[0], a: f.ptrLoc(t.Args[1], elem), b: f.ptrLoc(t.Args[2], elem)}
+		}
+		panic(unsupported{"pointer expression mixing interior pointers: " + renderTerm(ref)})
+	}
+	return LPtr{ref: ref, elem: elem}
+}
+
+func (c *Ctx) unfold(t *Term) *Term {
+	for len(t.Args) == 0 {
+		d, ok := c.defOf[t.Op]
+		if !ok {
+			break
+		}
+		t = d
+	}
+	return t
+}
+
+// fieldLoc: location of field idx of the struct pointed to by ref.
+func (f *Frame) fieldLoc(ref *Term, el types.Type, idx int) Loc {
+	c := f.c
+	if c.interior != nil && c.mentionsInterior(ref) {
+		if il, ok := c.interior[ref.Op]; ok && len(ref.Args) == 0 {
+			return LField{base: il, si: c.structInfo(el), idx: idx}
+		}
+		t := c.unfold(ref)
+		if il, ok := c.interior[t.Op]; ok && len(t.Args) == 0 {
+			return LField{base: il, si: c.structInfo(el), idx: idx}
+		}
+		if t.Op == "ite" {
+			return LCond{cond: t.Args[0], a: f.fieldLoc(t.Args[1], el, idx), b: f.fieldLoc(t.Args[2], el, idx)}
+		}
+		panic(unsupported{"pointer expression mixing interior pointers: " + renderTerm(ref)})
+	}
+	return LHeapField{ref: ref, st: el, idx: idx}
+}
+
+// interior pointers: a pointer into a variable, a global, or a struct-valued field of a heap object is a
+// fresh non-nil symbol whose dereference is redirected to the underlying location.
+func (c *Ctx) interiorLoc(ref *Term) (Loc, bool) {
+	if c.interior == nil {
+		return nil, false
+	}
+	if len(ref.Args) == 0 {
+		if l, ok := c.interior[ref.Op]; ok {
+			return l, true
+		}
+		if d, ok := c.defOf[ref.Op]; ok {
+			if u := c.unfold(d); len(u.Args) == 0 {
+				if l, ok := c.interior[u.Op]; ok {
+					return l, true
+				}
+			}
+		}
+		return nil, false
+	}
+	return nil, false
+}
+
+func (c *Ctx) mentionsInterior(t *Term) bool {
+	if len(t.Args) == 0 {
+		if _, ok := c.interior[t.Op]; ok {
+			return true
+		}
+		if d, ok := c.defOf[t.Op]; ok {
+			return c.mentionsInterior(d)
+		}
+		return false
+	}
+	for _, a := range t.Args {
+		if c.mentionsInterior(a) {
+			return true
+		}
+	}
+	return false
+}
+
+func (f *Frame) interiorRef(st *State, loc Loc) *Term {
+	c := f.c
+	r := c.fresh("iptr", SInt)
+	c.defs = append(c.defs, fmt.Sprintf("(assert (not (= %s 0)))", r.Op))
+	if c.interior == nil {
+		c.interior = map[string]Loc{}
+	}
+	c.interior[r.Op] = loc
+	al := c.heapGet(st, "ALLOC", ArrSort(SInt, SBool))
+	c.heapSet(st, "ALLOC", Store(al, r, TTrue))
+	return r
+}
 
 func (f *Frame) store(st *State, l Loc, v *Term) {
 	c := f.c
@@ -257,6 +358,10 @@ func (f *Frame) store(st *State, l Loc, v *Term) {
 		c.heapSet(st, ln, Store(ln0, l.ref, Ite(had, Select(ln0, l.ref), Add(Select(ln0, l.ref), IntLit(1)))))
 		c.heapSet(st, dn, Store(dom, l.ref, Store(Select(dom, l.ref), l.key, TTrue)))
 		c.heapSet(st, vn, Store(val, l.ref, Store(Select(val, l.ref), l.key, v)))
+	case LCond:
+		va, vb := f.load(st, l.a), f.load(st, l.b)
+		f.store(st, l.a, Ite(l.cond, v, va))
+		f.store(st, l.b, Ite(l.cond, vb, v))
 	case LTemp:
 		panic(unsupported{"assignment to non-addressable value"})
 	default:
@@ -358,8 +463,8 @@ func (f *Frame) selectPath(st *State, x ast.Expr, path []int) Loc {
 	for _, idx := range path {
 		if el, isPtr := deref(t); isPtr {
 			ref := f.load(st, loc)
-			loc = LHeapField{ref: ref, st: el, idx: idx}
 			stt := types.Unalias(el).Underlying().(*types.Struct)
+			loc = f.fieldLoc(ref, el, idx)
 			t = stt.Field(idx).Type()
 			continue
 		}
@@ -565,7 +670,7 @@ func (f *Frame) binary(st *State, e *ast.BinaryExpr) *Term {
 	switch e.Op {
 	case token.LAND, token.LOR:
 		a := f.expr(st, e.X)
-		if !hasCall(e.Y) {
+		if !hasCall(e.Y) || f.inSpec {
 			// Y may only be evaluated when needed; since it is side-effect free, evaluating it under a
 			// strengthened pc only matters for well-formedness assumptions, which are harmless.
 			b := f.expr(st, e.Y)
@@ -941,23 +1046,19 @@ func (f *Frame) addrOf(st *State, x ast.Expr) *Term {
 			return v.Val
 		}
 		if pv, ok := obj.(*types.Var); ok && pv.Pkg() != nil && pv.Parent() == pv.Pkg().Scope() {
-			f.fail(x, "address of package variable %s", pv.Name())
+			return f.interiorRef(st, LGlobal{name: pv.Pkg().Path() + "." + pv.Name(), typ: pv.Type()})
 		}
 		f.fail(x, "address of local %s not pre-registered as heap var", x.Name)
 	}
-	// interior pointer: copy-in (caller must copy out); we model as a snapshot copy and note it
 	loc := f.lvalue(st, x)
-	if hf, ok := loc.(LHeapField); ok {
-		// pointer to a struct-valued field of a heap object: snapshot copy
-		_ = hf
+	if _, isTemp := loc.(LTemp); isTemp {
+		v := f.load(st, loc)
+		t := f.typeOf(x)
+		r := f.alloc(st)
+		f.store(st, f.ptrLoc(r, t), v)
+		return r
 	}
-	v := f.load(st, loc)
-	t := f.typeOf(x)
-	r := f.alloc(st)
-	f.store(st, f.ptrLoc(r, t), v)
-	f.c.note("interior pointer &" + exprString(x) + " modelled as copy (writes through it are not propagated back)")
-	f.pendingCopyBack = append(f.pendingCopyBack, copyBack{ref: r, typ: t, loc: loc})
-	return r
+	return f.interiorRef(st, loc)
 }
 
 type copyBack struct {
